@@ -5,8 +5,6 @@ From Coq Require Import ZifyN ZifyNat ZifyBool.
 Ltac Zify.zify_post_hook ::= Z.div_mod_to_equations.
 
 Definition nil_script (sc : script) : Prop := forall k, sc k = None.
-Definition item_call (t : N * N * bytes) : call := CPa (fst (fst t)) (snd (fst t)) (snd t).
-Definition item_code (t : N * N * bytes) : N := fst (fst t).
 
 Lemma flag_extlen_spec flags : flag_extlen flags = (16 <=? flags mod 32).
 Proof. unfold flag_extlen. lia. Qed.
@@ -128,9 +126,6 @@ Proof.
   exists p1, p0, r2. repeat split; assumption.
 Qed.
 
-Definition missing_attrs (items : list (N * N * bytes)) (Nl : bytes) : bool :=
-  let has c := existsb (N.eqb c) (map item_code items) in
-  ((0 <? blen Nl) || has 14) && negb (has 1 && has 2).
 
 Lemma missing_check_nil_state st h items :
   (forall c, seen (pa_seen st) c = existsb (N.eqb c) (map item_code items)) ->
